@@ -626,6 +626,13 @@ class Symex:
 
     # ------------------------------------------------------------ expressions
     def binop(self, op, a, b, node):
+        # optional model of operators on abstract records: ``sx.binop_hook(sx, op, a, b, node)`` (node is the
+        # AugAssign statement for in-place operators); NotImplemented falls through to the generic term arithmetic
+        h = getattr(self, "binop_hook", None)
+        if h is not None:
+            r = h(self, op, a, b, node)
+            if r is not NotImplemented:
+                return r
         sa, sb = isinstance(a, T), isinstance(b, T)
         if isinstance(a, Obj):
             a, sa = a.term, True
@@ -665,6 +672,12 @@ class Symex:
             self.unsupported(node, f"arithmetic on {type(a).__name__}, {type(b).__name__}")
 
     def compare(self, opname, a, b, node):
+        # optional model of comparisons on abstract records: ``sx.compare_hook(sx, opname, a, b, node)``
+        h = getattr(self, "compare_hook", None)
+        if h is not None:
+            r = h(self, opname, a, b, node)
+            if r is not NotImplemented:
+                return r
         if isinstance(a, Ext):
             a = sym(a.name)
         if isinstance(b, Ext):
